@@ -18,7 +18,16 @@ namespace CaddyModel.C02
 
 /-! ### the address universe of the harness -/
 
-def addrUniverse : List Addr := [⟨false, 0⟩, ⟨false, 1⟩, ⟨false, 2⟩, ⟨true, 0⟩, ⟨true, 1⟩]
+def admM0 : Addr := ⟨false, 10⟩
+def admM1 : Addr := ⟨true, 10⟩
+
+/-- protocol order: t0 t1 t2 m0 u0 u1 m1 (m0, m1: the admin endpoint's addresses) -/
+def addrUniverse : List Addr := [⟨false, 0⟩, ⟨false, 1⟩, ⟨false, 2⟩, admM0, ⟨true, 0⟩, ⟨true, 1⟩, admM1]
+
+def isAdminAddr (a : Addr) : Bool := a.id == 10
+
+/-- the bookkeeping record of an address: the admin endpoint's part of the pool is kept apart -/
+def sockOf (s : State) (a : Addr) : Sock := if isAdminAddr a then s.asocks a else s.socks a
 
 def addrOfName : String → Option Addr
   | "t0" => some ⟨false, 0⟩
@@ -28,7 +37,13 @@ def addrOfName : String → Option Addr
   | "u1" => some ⟨true, 1⟩
   | _ => none
 
-def addrName (a : Addr) : String := (if a.unix then "u" else "t") ++ toString a.id
+def adminOfName : String → Option Addr
+  | "m0" => some admM0
+  | "m1" => some admM1
+  | _ => none
+
+def addrName (a : Addr) : String :=
+  if isAdminAddr a then (if a.unix then "m1" else "m0") else (if a.unix then "u" else "t") ++ toString a.id
 
 def addrIdx (a : Addr) : Nat := if a.unix then 3 + a.id else a.id
 
@@ -40,7 +55,7 @@ def sockStr (a : Addr) (k : Sock) : String :=
   if a.unix then String.ofList [digitCh k.pool, digitCh k.ucnt, if k.file then '1' else '0']
   else String.ofList [digitCh k.pool]
 
-def snapStr (s : State) : String := String.join (addrUniverse.map fun a => sockStr a (s.socks a))
+def snapStr (s : State) : String := String.join (addrUniverse.map fun a => sockStr a (sockOf s a))
 
 /-! ### scenario -/
 
@@ -48,6 +63,7 @@ structure CfgSpec where
   same : Bool
   fail : Bool
   addrs : List Addr
+  admin : Option Addr
 deriving Repr
 
 structure TokSpec where
@@ -64,16 +80,26 @@ def canonNat (s : String) : Option Nat :=
 
 def parseSrv (s : String) : Option (List Addr) := (s.splitOn ",").mapM addrOfName
 
-def parseCfg (s : String) : Option CfgSpec :=
-  if s == "=" then some ⟨true, false, []⟩ else
-  let fail := s.startsWith "!"
-  let body := if fail then (s.drop 1).toString else s
-  if body == "-" then some ⟨false, fail, []⟩ else
+def parseBody (fail : Bool) (body : String) (admin : Option Addr) : Option CfgSpec :=
+  if body == "-" then some ⟨false, fail, [], admin⟩ else
   match (body.splitOn "+").mapM parseSrv with
   | some srvs =>
     let as := srvs.flatten
-    if as.Nodup then some ⟨false, fail, as⟩ else none
+    if as.Nodup then some ⟨false, fail, as, admin⟩ else none
   | none => none
+
+def parseCfg (s : String) : Option CfgSpec :=
+  if s == "=" then some ⟨true, false, [], none⟩ else
+  let fail := s.startsWith "!"
+  let rest := if fail then (s.drop 1).toString else s
+  match rest.splitOn "@" with
+  | [body] => parseBody fail body none
+  | body :: adm =>
+    -- Go: strings.Cut at the first "@"; what follows must be exactly m0 or m1
+    match adminOfName ("@".intercalate adm) with
+    | some a => parseBody fail body (some a)
+    | none => none
+  | [] => none
 
 /-- `running[k]`: index of the config that is running just before load `k` -/
 def runningBefore (cfgs : List CfgSpec) : Nat → Option Nat
@@ -126,9 +152,17 @@ def parseScenario (grace napps cfgs toks : String) : Option Scenario :=
 
 def runList (s : State) (steps : List Step) : Option State := run s steps
 
+/-- `connect` on the record of an address (HTTP or admin part of the pool) -/
+def connectSock (a : Addr) (k : Sock) : List Conn :=
+  if k.hs ≠ [] then k.gens.map Conn.answered
+  else if !a.unix then [.refused]
+  else if !k.file then [.noent]
+  else if k.leaks > 0 then [.hangs]
+  else [.refused]
+
 /-- who answers (canonical letter) after drain -/
 def drainedAns (s : State) (a : Addr) : Char :=
-  match connect s a with
+  match connectSock a (sockOf s a) with
   | .answered g :: _ => genCh g
   | .hangs :: _ => 'l'
   | _ => 'c'
@@ -168,11 +202,14 @@ def curCfg (s : State) : Cfg :=
 def block (res : String) (s : State) (binds closes : List (Nat × String)) : String :=
   res ++ ":" ++ snapStr s ++ ":" ++ ansStr s ++ ":" ++ ",".intercalate (sortByIdx binds) ++ ":" ++ ",".intercalate (sortByIdx closes)
 
+/-- the replaced admin servers shut down -/
+def settleAdmin (s : State) : Option State := run s (s.admRetired.map fun p => .adminClose p.1 p.2)
+
 /-- one load of the sequence on the canonical schedule; `none` = the model got stuck (cannot happen
     for parsed scenarios; printed as `model-stuck`) ; the Bool says "stop here" (stale) -/
 def loadBlock (s : State) (k : Nat) (c : CfgSpec) : Option (State × String × Bool) :=
   if c.same then some (s, block "same" s [] [], false) else
-  match step? s (.begin ⟨k, c.addrs⟩) with
+  match run s [.begin ⟨k, c.addrs⟩, .adminReplace k c.admin] with
   | none => none
   | some s1 =>
     match bindAll s1 c.addrs with
@@ -185,7 +222,7 @@ def loadBlock (s : State) (k : Nat) (c : CfgSpec) : Option (State × String × B
           match closeAll s3 k c.addrs with
           | none => none
           | some (s4, closes) =>
-            match step? s4 .ret with
+            match (step? s4 .ret).bind settleAdmin with
             | some s5 => some (s5, block "err" s5 binds closes, false)
             | none => none
       else
@@ -196,7 +233,7 @@ def loadBlock (s : State) (k : Nat) (c : CfgSpec) : Option (State × String × B
           match closeAll s3 old.gen old.addrs with
           | none => none
           | some (s4, closes) =>
-            match step? s4 .ret with
+            match (step? s4 .ret).bind settleAdmin with
             | some s5 => some (s5, block "ok" s5 binds closes, false)
             | none => none
 
@@ -239,25 +276,41 @@ def summary (sc : Scenario) : String :=
 
 /-! ### validating a recorded trace -/
 
-def parseSnapOk (s : State) (snap : String) : Bool := snapStr s == snap
+/-- snapshot positions of an admin address (t0 t1 t2 m0 | u0 u1 m1, three characters per unix socket) -/
+def adminPositions (a : Addr) : List Nat := if a.unix then [10, 11, 12] else [3]
+
+/-- The model's bookkeeping equals the recorded snapshot. The Shutdown of a replaced admin server runs
+    concurrently with the harness's snapshot (it is not one of the closes the harness serialises), so the
+    characters of an admin address on which a replaced server's listener is still open in the model are
+    not compared: the snapshot may show the state before, after or in the middle of that close. -/
+def parseSnapOk (s : State) (snap : String) : Bool :=
+  let skip := (s.admRetired.map fun p => adminPositions p.2).flatten
+  let m := (snapStr s).toList
+  let o := snap.toList
+  m.length == o.length &&
+  ((List.range m.length).all fun i => skip.contains i || m[i]? == o[i]?)
 
 def retiringGen (s : State) : Option Gen := genOf s.retiring
 
 /-- is answer `ch` to a fresh connection to `a` possible, given the bookkeeping at snapshot time
     (listeners of the retiring config may have been closed between the snapshot and the connect) -/
+def closingGen (s : State) (a : Addr) (g : Gen) : Bool :=
+  if isAdminAddr a then s.admRetired.contains (g, a) else retiringGen s == some g
+
 def answerOk (s : State) (a : Addr) (ch : Char) : Bool :=
-  let gs := (s.socks a).gens
+  let gs := (sockOf s a).gens
   let closedOk : Bool :=
     if !a.unix then ch == 'r'
-    else if !(s.socks a).file then ch == 'n'
+    else if !(sockOf s a).file then ch == 'n'
     else ch == 'r' || ch == 'o'
   if ch == '-' then true
   else if gs.isEmpty then closedOk
   else if gs.any (fun g => genCh g == ch) then true
-  else if !a.unix && ch == 's' && gs.any (fun g => retiringGen s == some g) then true
-  else if gs.all (fun g => retiringGen s == some g) then
+  else if !a.unix && ch == 's' && gs.any (closingGen s a) then true
+  else if gs.all (closingGen s a) then
     -- every listener may be closed (and a unix socket's file removed) before the connect
-    closedOk || (a.unix && ch == 'n')
+    -- (a connection queued on the socket when its last listener is closed is reset)
+    closedOk || (a.unix && (ch == 'n' || ch == 's'))
   else false
 
 def answersOk (s : State) (ans : String) : Bool :=
@@ -279,6 +332,28 @@ def stepV (s : State) (st : Step) (why : String) : Verdict :=
   match step? s st with
   | some s' => .ok s'
   | none => .bad ("not-enabled:" ++ why)
+
+/-- open listeners on `a` according to a recorded snapshot -/
+def observedHolders (snap : String) (a : Addr) : Option Nat :=
+  let cs := snap.toList
+  -- positions: t0 t1 t2 m0 | u0(3) u1(3) m1(3)
+  let pos := if a.unix then (if isAdminAddr a then 11 else 5 + 3 * a.id) else (if isAdminAddr a then 3 else a.id)
+  match cs[pos]? with
+  | some c => if c.isDigit then some (c.toNat - 48) else none
+  | none => none
+
+/-- the Shutdown of a replaced admin server is not observed as an event: infer the `adminClose` steps
+    that the recorded snapshot shows have happened -/
+def inferAdminCloses (s : State) (snap : String) : State :=
+  s.admRetired.foldl (fun st p =>
+    match observedHolders snap p.2 with
+    | some n =>
+      if n < (st.asocks p.2).hs.length then
+        match step? st (.adminClose p.1 p.2) with
+        | some st' => st'
+        | none => st
+      else st
+    | none => st) s
 
 def checkObs (s : State) (snap ans : String) : Option String :=
   if !parseSnapOk s snap then some ("snapshot model=" ++ snapStr s)
@@ -317,8 +392,16 @@ def validateEvent (sc : Scenario) (s : State) (ev : String) : Verdict :=
       | none, _ => .bad "parse"
     | ["D", _], [snap, ans] =>
       match checkObs s snap ans with
-      | none => if s.drained && s.phase = .idle then .ok s else .bad "not-drained"
+      | none => if s.drained && s.phase = .idle && s.admRetired.isEmpty then .ok s else .bad "not-drained"
       | some w => .bad w
+    | ["M", ks, an], [] =>
+      match ks.toNat? with
+      | some k =>
+        if an == "-" then stepV s (.adminReplace k none) "adminReplace" else
+        match adminOfName an with
+        | some a => stepV s (.adminReplace k (some a)) "adminReplace"
+        | none => .bad "parse"
+      | none => .bad "parse"
     | ["W", _], [] => stepV s .swap "swap"
     | ["J", _], [] => stepV s .reject "reject"
     | ["Z", _], [] => .bad "http-app-start-failed"   -- a config that should have been accepted was rejected
@@ -335,7 +418,9 @@ def validateEvent (sc : Scenario) (s : State) (ev : String) : Verdict :=
       | some g, some a =>
         if !parseSnapOk s snap then .bad ("snapshot-before-close model=" ++ snapStr s) else
         match step? s (.close g a) with
-        | some s' => if parseSnapOk s' snap2 then .ok s' else .bad ("snapshot-after-close model=" ++ snapStr s')
+        | some s' =>
+          let s'' := inferAdminCloses s' snap2
+          if parseSnapOk s'' snap2 then .ok s'' else .bad ("snapshot-after-close model=" ++ snapStr s'')
         | none => .bad "not-enabled:close"
       | _, _ => .bad "parse"
     | ["A", gs, ts, an], [] =>
@@ -355,10 +440,17 @@ def validateEvent (sc : Scenario) (s : State) (ev : String) : Verdict :=
       | _, _, _ => .bad "parse"
     | _, _ => .bad "parse"
 
+def eventSnap (ev : String) : Option String :=
+  match ev.splitOn ":" with
+  | _ :: snap :: _ => some snap
+  | _ => none
+
 def validateLoop (sc : Scenario) (s : State) (i : Nat) : List String → String
   | [] => "accept"
   | ev :: rest =>
-    match validateEvent sc s ev with
+    match validateEvent sc (match eventSnap ev with
+                            | some snap => inferAdminCloses s snap
+                            | none => s) ev with
     | .ok s' => validateLoop sc s' (i + 1) rest
     | .bad why => "reject@" ++ toString i ++ ":" ++ why
 
